@@ -2,6 +2,7 @@
 from engine import *
 import obligations
 import provenance
+import mutations
 import re
 import chainrules
 
@@ -426,3 +427,4 @@ RULES = [
 ]
 RULES.append(('10.u', 'obligation-carrying values returned by workspace calls (to-fail HTLC lists, monitor updates, events, peer messages, claim packages) are never dropped on a path that does not examine them (rules/obligations.py)', lambda F: obligations.for_property(F, 'C10', '10.u')))
 RULES.append(('10.t', 'identity comparisons: every reviewed (function, identity type) == / != comparison (HTLCSource, Txid, OutPoint, ChannelId, PaymentHash, PublicKey, ...) is still made - a function does not silently change what it matches by (rules/provenance.py)', lambda F: provenance.ids_for_property(F, 'C10', '10.t')))
+RULES.append(('10.M', 'collection mutations: every reviewed (function, stored collection, mutator class: add / remove / filter / empty / swap / order) triple is still present - an entry that is no longer removed, inserted or drained on one path (rules/mutations.py)', lambda F: mutations.for_property(F, 'C10', '10.M')))
